@@ -105,8 +105,9 @@ let () =
         !s.text_opts <- Some !o
     | "input" :: name :: rest ->
         let nm = if name = "-" then None else (match utf8_decode (unhex name) with Some x -> Some x | None -> None) in
+        let strip h = if String.length h > 0 && h.[0] = 'x' then String.sub h 1 (String.length h - 1) else h in
         let (data, fail) = match rest with
-          | [h; f] -> (unhex h, Some (int_of_string f)) | [h] -> (unhex h, None) | _ -> ([], None) in
+          | [h; f] -> (unhex (strip h), Some (int_of_string f)) | [h] -> (unhex (strip h), None) | _ -> ([], None) in
         let evs = List.map (fun b -> EB b) data in
         let evs = match fail with
           | Some k -> (List.filteri (fun i _ -> i < k) evs) @ [EErr]
